@@ -150,4 +150,16 @@ theorem model_mcca_transform_training {n P Q k : ℕ} (Xphys : XM.Mat n Q ℝ) (
     XM.mccaTransform (XM.mccaFit Xphys blkQ B E lam0 perm) blkQ Xphys v = (XM.mccaFit Xphys blkQ B E lam0 perm).variates v :=
   XP.MccaM.transform_training Xphys blkQ B E lam0 perm v
 
+/-- source obligations (regenerated): the scores of each field are restored through that field's OWN whitener, PCA and preprocessor
+(the second field keeps its own sample labels), and the order of a Dataset's variables is recorded at fit and re-applied to the data
+handed to `transform` -/
+theorem src_cross_scores_use_own_objects :
+    Gen.crossScoresRestoreCalls = ["self.whitener1.inverse_transform_scores(Rx)", "self.whitener2.inverse_transform_scores(Ry)",
+      "self.pca1.inverse_transform_scores(Rx)", "self.pca2.inverse_transform_scores(Ry)",
+      "self.preprocessor1.inverse_transform_scores(Rx)", "self.preprocessor2.inverse_transform_scores(Ry)"] := by decide +kernel
+
+theorem src_dataset_variable_order_is_fitted_state :
+    Gen.stackerVarsRecorded = ["self.vars_in = tuple(X.data_vars) if isinstance(X, xr.Dataset) else tuple()"] ∧
+    Gen.stackerVarsReapplied = ["X = X[list(vars_in)]"] := by decide +kernel
+
 end C04
